@@ -99,6 +99,9 @@ fn lib_source(g: &mut Rng, session: bool) -> (String, Vec<String>) {
         ("visb", "{ a::: 10, h::: 20, v:: 30, extra: [lib.shallow] }".into()),
         ("visc", "{ a+: 1, h+:: 5, v+::: 6, n+: { z::: 2 } }".into()),
         ("visd", "{ a:: 0, zz::: 0, extra:: 0 } + { [k]: k + \"!\" for k in [\"a\", \"zz\", \"extra\"] }".into()),
+        // empty containers, rendered differently by every manifestation format (multi-line, single-line, manifestJsonEx)
+        ("empties", "{ a: [], o: {}, n: [[], {}, [1, []]], s: \"\" }".into()),
+        ("tf", "std.thisFile".into()),
         ("longn", "{ configuration_b: 1, configuration_a: 2, upstream_hostname: lib.shallow, upstream_host: 4 }".into()),
         // fields that depend on `self`: objects DERIVED from a shared object by later requests (a key removed, patched,
         // overridden, hidden) must compute them against the new object, whatever was forced on the original before
@@ -118,7 +121,7 @@ fn lib_source(g: &mut Rng, session: bool) -> (String, Vec<String>) {
     // always present: shallow, arr, deep, secret; others by swarm
     let mut names = Vec::new();
     for (n, src) in &menu {
-        if matches!(*n, "shallow" | "arr" | "deep" | "boom" | "nested" | "guarded" | "loop" | "loop2" | "selfdep") || g.chance(2, 3) {
+        if matches!(*n, "shallow" | "arr" | "deep" | "boom" | "nested" | "guarded" | "loop" | "loop2" | "selfdep" | "empties" | "tf") || g.chance(2, 3) {
             fields.push((n.to_string(), src.clone()));
             names.push(n.to_string());
         }
@@ -142,7 +145,7 @@ fn client_source(g: &mut Rng, names: &[String], via: &str) -> String {
     let objs: Vec<String> = names.iter().filter(|n| matches!(n.as_str(), "visa" | "visb" | "visc" | "visd" | "guarded" | "checked" | "nested" | "comp" | "viasuper" | "halfbad" | "outer" | "selfdep" | "plusdeep" | "plussub" | "plusobj")).cloned().collect();
     let vis: Vec<String> = objs.iter().filter(|n| n.starts_with("vis")).cloned().collect();
     let fo = |g: &mut Rng| if !vis.is_empty() && g.chance(3, 5) { g.pick(&vis).clone() } else if objs.is_empty() { "nested".to_string() } else { g.pick(&objs).clone() };
-    match g.below(56) {
+    match g.below(62) {
         0 => format!("{l}.{}", f(g)),
         1 => format!("local l = {l}; [l.{}, l.{}]", f(g), f(g)),
         2 => format!("local l = {l}; {{ a: l.{}, b: l.{} }}", f(g), f(g)),
@@ -216,6 +219,14 @@ fn client_source(g: &mut Rng, names: &[String], via: &str) -> String {
         52 => format!("local l = {l}; [std.extVar(\"z9\"), l.shallow]"),
         53 => "local e = std.extVar(\"M5\"); if std.isObject(e) then e.v else e".to_string(),
         54 => "[std.extVar(\"z9\"), std.extVar(\"A1\")]".to_string(),
+        // every manifestation format over the same values, in whatever order the history asks for them
+        55 => format!("local l = {l}; std.manifestJsonEx(l.{}, \"   \")", if g.chance(1, 2) { "empties".to_string() } else { f(g) }),
+        56 => format!("local l = {l}; [std.manifestJsonEx(l.empties, \"\", \"\", \": \"), std.manifestJsonEx(l.{}, \"   \", \"\\n\", \": \")]", f(g)),
+        57 => format!("local l = {l}; [\"\" + l.empties.n, std.toString(l.empties), std.manifestJsonMinified(l.{}), std.manifestJson(l.empties)]", f(g)),
+        58 => format!("local l = {l}; {{ e: l.empties, v: l.{}, z: [[]], y: {{}} }}", f(g)),
+        // what a source says about itself
+        59 => format!("local l = {l}; [std.thisFile, l.tf, l.shallow]"),
+        60 => "{ me: std.thisFile, parts: std.split(std.thisFile, \"/\") }".to_string(),
         33 => format!("local l = {l}; [std.objectRemoveKey(l.{a}, \"a\"), std.mergePatch(l.{b}, {{ a: null, k: null }}), l.{a}]", a = if g.chance(1, 2) { "selfdep".to_string() } else { fo(g) }, b = fo(g)),
         34 => format!("local l = {l}; [l.{a} {{ a: 10 }}, l.{b} + {{ a:: 5, xs+: [9] }}, std.objectRemoveKey(l.{a}, \"xs\")]", a = fo(g), b = fo(g)),
         35 => format!("local l = {l}; local o = l.{}; [std.length(o), std.objectFields(o), o]", fo(g)),
@@ -279,6 +290,29 @@ pub fn gen_history_mode(seed: u64, with_faults: bool, session: bool) -> History 
             // a source whose run-time error span lies in a context registered after the failed load
             files.insert("late.jsonnet".into(), b"local l = import \"lib.libsonnet\"; [l.shallow, [1, 2][l.shallow + 1]]".to_vec());
             srcs.push("late.jsonnet".into());
+        }
+    }
+    if g.chance(1, 3) {
+        // sources with byte-identical TEXT in different places: what is derived from a text (syntax tree, spans,
+        // relative imports) belongs to the source, not to the text
+        let failing = b"local x = [1, 2, (import \"lib.libsonnet\").shallow]; [x[0], x[7]]".to_vec();
+        files.insert("dup_a.jsonnet".into(), failing.clone());
+        files.insert("dup_b.jsonnet".into(), failing);
+        let importing = b"(import \"sub.libsonnet\").s".to_vec();
+        files.insert("lib/dupi.jsonnet".into(), importing.clone());
+        files.insert("dupi.jsonnet".into(), importing);
+        for s in ["dup_a.jsonnet", "dup_b.jsonnet", "lib/dupi.jsonnet", "dupi.jsonnet"] {
+            if g.chance(2, 3) {
+                srcs.push(s.to_string());
+            }
+        }
+        if session {
+            files.insert("p/same.jsonnet".into(), b"{ u: import \"util.libsonnet\", w: [importstr \"util.libsonnet\"] }".to_vec());
+            files.insert("q/same.jsonnet".into(), b"{ u: import \"util.libsonnet\", w: [importstr \"util.libsonnet\"] }".to_vec());
+            files.insert("p/util.libsonnet".into(), b"\"P\"".to_vec());
+            files.insert("q/util.libsonnet".into(), b"\"Q\"".to_vec());
+            srcs.push("p/same.jsonnet".to_string());
+            srcs.push("q/same.jsonnet".to_string());
         }
     }
     if session {
